@@ -347,7 +347,100 @@ def r04_ef(prog: Program, chk: Check) -> None:
     chk.ob("R04.f", "value::MultiValuedValue.can_assign::exists-member", ok, prog.site("value", fn), "the non-union arm must try every own member against `other`, reject iff none accepted and accept otherwise")
 
 
+def early_accept_rule(prog: Program, chk: Check, rid: str) -> None:
+    chk.rule(rid, "accepting shortcuts in the union-on-the-left arm are exact: a literal is accepted early only when (value, type) is a member literal", floor=1)
+    fn = prog.func("value", "MultiValuedValue.can_assign")
+    loop = None
+    for lp in walk_no_nested(fn):
+        if isinstance(lp, ast.For) and isinstance(lp.target, ast.Name) and any(
+            isinstance(c.func, ast.Attribute) and norm(c.func.value) == lp.target.id and c.args and norm(c.args[0]) == "other" for c in calls_in(lp, "can_assign")
+        ):
+            loop = lp
+    if loop is None:
+        raise AnchorError("MultiValuedValue.can_assign: member loop not found")
+    blk = parent(loop)
+    arm = blk.orelse if loop in getattr(blk, "orelse", []) else blk.body  # type: ignore[union-attr]
+    early = [r for st in arm[: arm.index(loop)] for r in ast.walk(st) if isinstance(r, ast.Return) and isinstance(r.value, ast.Dict)]
+    n = 0
+    for r in early:
+        n += 1
+        ok = False
+        for g, pol in guards_of(r, fn):
+            if not pol or not isinstance(g, ast.Name):
+                continue
+            defs = local_assignments(fn, g.id)
+            ok = bool(defs) and all(
+                isinstance(d, ast.Compare)
+                and len(d.ops) == 1
+                and isinstance(d.ops[0], ast.In)
+                and isinstance(d.left, ast.Tuple)
+                and [norm(e) for e in d.left.elts] == ["other.val", "type(other.val)"]
+                for d in defs
+            )
+        chk.ob(
+            rid,
+            f"value::MultiValuedValue.can_assign::early-accept#{n}",
+            ok,
+            prog.site("value", r),
+            "an accepting shortcut before the member loop is not justified by an exact `(other.val, type(other.val)) in known literals` test: "
+            "objects that merely share a class with a member are accepted without the member's own check",
+        )
+    if n == 0:
+        chk.ob(rid, "value::MultiValuedValue.can_assign::early-accept", True, prog.site("value", fn), "no accepting shortcut before the member loop", nontrivial=False)
+
+
+def r04_ghi(prog: Program, chk: Check) -> None:
+    from ..cfg import CFG
+
+    early_accept_rule(prog, chk, "R04.g")
+    chk.rule("R04.h", "in SequenceValue.can_assign every acceptance is dominated by the length comparison", floor=2)
+    sf = prog.func("value", "SequenceValue.can_assign")
+    g = CFG(sf)
+    length_if = None
+    for n2 in walk_no_nested(sf):
+        if isinstance(n2, ast.If) and isinstance(n2.test, ast.Compare) and isinstance(n2.test.ops[0], ast.NotEq) and "len" in norm(n2.test.left) + "".join(norm(a) for a in local_assignments(sf, norm(n2.test.left)) if isinstance(n2.test.left, ast.Name)):
+            if isinstance(n2.body[-1], ast.Return) and "CanAssignError" in norm(n2.body[-1]):
+                length_if = n2
+    if length_if is None:
+        raise AnchorError("SequenceValue.can_assign: length comparison not found")
+    seq_arm = None
+    for n2 in sf.body:
+        if isinstance(n2, ast.If) and "SequenceValue" in norm(n2.test):
+            seq_arm = n2
+    if seq_arm is None:
+        raise AnchorError("SequenceValue.can_assign: SequenceValue arm not found")
+    k = 0
+    for r in [x for st in seq_arm.body for x in ast.walk(st) if isinstance(x, ast.Return)]:
+        v = r.value
+        if isinstance(v, ast.Dict) or (isinstance(v, ast.Call) and last_attr(v) == "unify_bounds_maps"):
+            k += 1
+            chk.ob(
+                "R04.h",
+                f"value::SequenceValue.can_assign::accept#{k}-after-length-check",
+                g.dominates(length_if, r),
+                prog.site("value", r),
+                f"`{norm(r)[:40]}` can be reached without passing the length comparison: a sequence of a different length is accepted",
+            )
+
+    chk.rule("R04.i", "type[X] accepts a metaclass-typed value only if X is an instance of that metaclass (direction of the metatype test)", floor=1)
+    mf = prog.func("type_object", "TypeObject.is_metatype_of")
+    other_name = [a.arg for a in mf.args.args][1]
+    ok = False
+    for c in calls_in(mf):
+        if last_attr(c) in ("safe_isinstance", "isinstance") and len(c.args) == 2:
+            a0, a1 = norm(c.args[0]), norm(c.args[1])
+            ok = a0.startswith(other_name + ".") and a1.startswith("self.")
+    chk.ob(
+        "R04.i",
+        "type_object::TypeObject.is_metatype_of::direction",
+        ok,
+        prog.site("type_object", mf),
+        "the metatype test must be isinstance(<other's class object>, <self's type>); any other direction accepts metaclasses the class is not an instance of",
+    )
+
+
 def run(prog: Program, chk: Check) -> None:
+    r04_ghi(prog, chk)
     r04_abc(prog, chk)
     r04_d(prog, chk)
     r04_ef(prog, chk)
